@@ -227,7 +227,20 @@ def query2(ctx) -> List[Ob]:
     elif outer and inter:
         out.append(bad("QUERY-2", m.qualname, key, where, "headers/entries do not follow the definition 'inside targets of outside blocks, and their sources' (conditional update, or the source is not recorded as entry)"))
     else:
-        out.append(unresolved("QUERY-2", m.qualname, key, where, "find_headers_and_entries is not written in the recognised form"))
+        # the recognised computation, but only for some of the outside blocks: a filter in front of it
+        filt = None
+        if outer:
+            lp = outer[0]
+            v = A.unparse(lp.target)
+            for s in lp.body:
+                if isinstance(s, ast.If) and not s.orelse:
+                    inside = [x for x in A.walk_no_nested(ast.Module(s.body, [])) if isinstance(x, ast.Call) and isinstance(x.func, ast.Attribute) and x.func.attr == "intersection" and A.unparse(x.func.value) == sub and x.args and f"[{v}]" in A.unparse(x.args[0]) and "jump_targets" in A.unparse(x.args[0])]
+                    if inside and " in " not in A.unparse(s.test).replace(" not in ", " in ") or inside and sub not in A.unparse(s.test):
+                        filt = s
+        if filt is not None:
+            out.append(bad("QUERY-2", m.qualname, key, ctx.where(m, filt), f"outside blocks are looked at only under '{A.unparse(filt.test)[:60]}': an outside block for which that fails but which has an arc into the subset (a latch whose only arcs are declared back edges is 'exiting' by the filtered view) is not an entry and its target not a header"))
+        else:
+            out.append(unresolved("QUERY-2", m.qualname, key, where, "find_headers_and_entries is not written in the recognised form"))
     ex = ctx.prog.cls("SCFG").find_method("exclude_blocks")
     key = "outside = every block not in the subset"
     if ex is not None:
